@@ -169,27 +169,27 @@ def plan(tier, seed):
         subsets = [list(c) for r in range(5) for c in itertools.combinations(SWITCHES, r)]
         for lang in LANGS:
             for sw in subsets:
-                p.append({'lang': lang, 'switches': sw, 'n': 40, 'chunk': 20})
+                p.append({'lang': lang, 'switches': sw, 'n': 12, 'chunk': 6})
             for d in (1, 2, 3, 4, 5, 7, 8):
-                p.append({'lang': lang, 'max_depth': d, 'n': 60, 'chunk': 20})
-            p.append({'lang': lang, 'n': 60, 'chunk': 20, 'tag': 'tp4',
+                p.append({'lang': lang, 'max_depth': d, 'n': 20 if d < 7 else 10, 'chunk': 5})
+            p.append({'lang': lang, 'n': 30, 'chunk': 10, 'tag': 'tp4',
                       'cfg': {'limits': {'max_type_params': 4}}})
-            p.append({'lang': lang, 'n': 60, 'chunk': 20, 'tag': 'squeezed', 'transformations': 3,
+            p.append({'lang': lang, 'n': 30, 'chunk': 10, 'tag': 'squeezed', 'transformations': 3,
                       'cfg': {'limits': {'max_var_decls': 0, 'max_top_level': 15,
                                          'fn': {'max_params': 4}}}})
-            p.append({'lang': lang, 'n': 40, 'chunk': 20, 'tag': 'tiny',
+            p.append({'lang': lang, 'n': 20, 'chunk': 10, 'tag': 'tiny',
                       'cfg': {'limits': {'max_top_level': 5, 'min_top_level': 1}}})
             p.append({'lang': lang, 'n': 24, 'chunk': 12, 'tag': 'noshim', 'shim': False})
     return p
 
 
 def finish(agg, tier):
-    agg.floor('cases', 120 if tier == 'quick' else 3000)
-    agg.floor('stage:generate', 120 if tier == 'quick' else 3000)
-    agg.floor('stage:translate', 240 if tier == 'quick' else 6000)
-    agg.floor('stage:erase', 120 if tier == 'quick' else 3000)
-    agg.floor('stage:overwrite', 80 if tier == 'quick' else 2000)
-    agg.floor('steps', 5_000_000 if tier == 'quick' else 200_000_000)
+    agg.floor('cases', 120 if tier == 'quick' else 1200)
+    agg.floor('stage:generate', 120 if tier == 'quick' else 1200)
+    agg.floor('stage:translate', 240 if tier == 'quick' else 2400)
+    agg.floor('stage:erase', 120 if tier == 'quick' else 1200)
+    agg.floor('stage:overwrite', 80 if tier == 'quick' else 800)
+    agg.floor('steps', 5_000_000 if tier == 'quick' else 80_000_000)
     return agg.finish(
         rule='a case = (language, switch subset, max_depth, cfg limits, seed) run through generate, '
              'translate, <=3 erasures, overwrite, translate with the real driver call sequence; '
